@@ -161,8 +161,14 @@ def printEid : Eid → Bytes
   | .null _ _ => asc "dtn:none"
   | .ipn _ n s => asc "ipn:" ++ decStr n ++ [46] ++ decStr s
 
-/-- `DtnAddress::node_name`: `split('/').nth(2).expect(..)` -/
-def dtnNodeName (ssp : Bytes) : Res Bytes :=
+/-- `DtnAddress::node_name` (fix F12): `split('/').nth(2).unwrap_or_default()` -/
+def dtnNodeName (ssp : Bytes) : Bytes :=
+  match splitOnByte SLASH ssp with
+  | _ :: _ :: n :: _ => n
+  | _ => []
+
+/-- `DtnAddress::node_name` as on the pinned tree: `.expect("invalid internal dtn address format")` -/
+def dtnNodeNamePinned (ssp : Bytes) : Res Bytes :=
   match splitOnByte SLASH ssp with
   | _ :: _ :: n :: _ => .ok n
   | _ => .panic .nodeName
@@ -174,16 +180,16 @@ def dtnServiceName (ssp : Bytes) : Option Bytes :=
   | none => none
 
 /-- `EndpointID::node` -/
-def Eid.node : Eid → Res (Option Bytes)
-  | .null _ _ => .ok none
-  | .dtn _ ssp => (dtnNodeName ssp).map some
-  | .ipn _ n _ => .ok (some (decStr n))
+def Eid.node : Eid → Option Bytes
+  | .null _ _ => none
+  | .dtn _ ssp => some (dtnNodeName ssp)
+  | .ipn _ n _ => some (decStr n)
 
 /-- `EndpointID::node_id` -/
-def Eid.nodeId : Eid → Res (Option Bytes)
-  | .null _ _ => .ok none
-  | .dtn _ ssp => (dtnNodeName ssp).map (fun n => some (asc "dtn://" ++ n ++ [SLASH]))
-  | .ipn _ n _ => .ok (some (asc "ipn:" ++ decStr n ++ asc ".0"))
+def Eid.nodeId : Eid → Option Bytes
+  | .null _ _ => none
+  | .dtn _ ssp => some (asc "dtn://" ++ dtnNodeName ssp ++ [SLASH])
+  | .ipn _ n _ => some (asc "ipn:" ++ decStr n ++ asc ".0")
 
 def Eid.isNodeId : Eid → Bool
   | .null _ _ => false
@@ -249,7 +255,7 @@ def Eid.newEndpoint (e : Eid) (ep : Bytes) : Res Eid :=
   match e with
   | .null _ _ => .err .value
   | .dtn _ ssp =>
-    (dtnNodeName ssp).bind (fun n => parseEid (asc "dtn://" ++ n ++ [SLASH] ++ ep))
+    parseEid (asc "dtn://" ++ dtnNodeName ssp ++ [SLASH] ++ ep)
   | .ipn _ node _ =>
     match parseU64 (trim ep) with
     | some k => withIpn node k
